@@ -13,6 +13,9 @@ CHECKS = {
  "C02": ("exploration", "runtime reference-model monitor: rescaling, basis extension and RNS decomposition executed on divisor-boundary inputs and compared coefficient-wise with math/big integer division / centred lifting / gadget recombination",
          "All DivFloor/DivRound(Many)(NTT) variants for every level and number of consecutive rescalings, ModUpQtoP/PtoQ and ModDownQPtoQ(NTT)/QPtoP for every (levelQ, levelP) pair, Decomposer.DecomposeAndSplit for every digit, rlwe.Evaluator.DecomposeNTT recombination against the RNS gadget vector, and the small-norm centred extension, on chains of 1..6 Q primes and 0..3 P primes of unequal sizes; boundary-heavy inputs; sampled chains.",
          "trusts math/big; allowed slack is exactly the one the property states (one multiple of the source modulus for ModUp, 1 for ModDown, same offset on every output modulus)", "4/C02"),
+ "C03": ("exploration", "runtime monitor with secret-key observation: every encryption/key component is decrypted by the harness and its exact centred error vector is compared with worst-case upper and statistical lower bounds",
+         "Accepted rlwe literals (both ring types, 1..4 Q / 0..2 P primes of mixed sizes, 8 secret and 5 error distributions) x every level x sk/pk x encryptor variants (ShallowCopy, WithKey, WithPRNG) x degree 0/1/2 x IsNTT x IsMontgomery: metadata equality, exact noise vector vs worst-case bound, pooled std in [nominal/2, 2 nominal], distinct errors/ciphertexts on re-encryption, unreadability under an independent key; every component of public, relinearisation, Galois and generic evaluation keys (incl. compressed+Expand, all (LevelQ, LevelP), power-of-two digits) is checked to be an encryption of exactly its gadget payload with error <= the truncation bound.",
+         "ring arithmetic used for c0+c1*s is trusted from C01; lower bounds only see >2x deviations of sigma; Element[ringqp.Poly] targets are observed through key generation only", "4/C03"),
 }
 ALL = [f"C{i:02d}" for i in range(1, 21)]
 PENDING_REASON = "monitor not built yet in this session (planned in DESIGN.md section 4); nothing is claimed for it"
